@@ -19,12 +19,15 @@ import sys
 import time
 
 VERIF = os.path.dirname(os.path.abspath(__file__))
-HARNESS = os.path.join(VERIF, "harness")
-REPO = "/repo"
+# The registered commands use the defaults (/verif/harness against /repo). The overrides exist for
+# tools/regress_seeds.sh, which runs the checks against a scratch copy of the repository with a
+# scratch copy of the harness, without touching /repo or the evidence files.
+HARNESS = os.environ.get("VERIF_HARNESS_DIR", os.path.join(VERIF, "harness"))
+REPO = os.environ.get("VERIF_REPO", "/repo")
 TARGET = os.path.join(HARNESS, "target")
 PROFILE = "verif"
-EVIDENCE = os.path.join(VERIF, "evidence")
-REPLAY = os.path.join(VERIF, "replay")
+EVIDENCE = os.environ.get("VERIF_EVIDENCE_DIR", os.path.join(VERIF, "evidence"))
+REPLAY = os.environ.get("VERIF_REPLAY_DIR", os.path.join(VERIF, "replay"))
 KNOWN = os.path.join(VERIF, "known_findings.json")
 MAX_CONFIRMED_ABORTS = 6
 
